@@ -159,9 +159,28 @@ PROPERTIES["C19"] = {
     "assumptions": ["the matrix is exhaustive for the fixed corpus and the listed fault kinds, not for all strings", "multi-fault sequences use unresolvable faults only, any of their admissible errors is accepted"],
 }
 
+PROPERTIES["C17"] = {
+    "machine": "diagram_sim",
+    "engine": "Sim-D",
+    "level": "exploration",
+    "level_text": "A seeded generator writes the source of a family of 2-7 dataclasses (single and multiple inheritance, bases left out of the diagram, optionally Symbol classes, optionally split over two modules that do not import each other, optionally with a decoy module of same-named classes) and records the kind and target of every field - builtin, Optional builtin, enum, Optional enum, container of builtins, one-to-one, Optional one-to-one, one-to-many (List/Set), type-valued, underscore-private; written directly or as a string forward reference - so the expected nodes, inheritance edges and association edges are known by construction. The scheduler chooses two orders of the class list and a history of 5-30 read-only operations (every public accessor, asked twice), derived sub-diagrams with both flags (used as receivers of further operations) and renderings of the symbol graph's type diagram. After EVERY operation every diagram created so far must be unchanged since its creation, source diagrams must equal the ground truth, the public accessors and the cached per-class answers must agree with the graph, fields must classify as recorded, and the two orders must give the same diagram.",
+    "design_ref": "DESIGN.md section 5, C17",
+    "level_note": "The history / order clauses are what the simulator decides; 'each field is classified as its annotation says' is the invariant re-checked over generated families and is sampled, not enumerated. What a derived view CONTAINS is not part of the property and is only a probe (see DESIGN.md false-alarm log). ClassDiagram.visualize is unavailable with the installed rustworkx_utils and is not exercised.",
+    "technique": "deterministic simulation: seeded registration order and read-only operation histories with derived views and rendering as faults; snapshot invariant + ground truth by construction checked after every step",
+    "tiers": {
+        "quick": {"runs": 3500, "wall_s": 150, "triage_s": 60},
+        "thorough": {"runs": 300000, "wall_s": 3000, "triage_s": 300},
+    },
+    "cfg": {},
+    "rule": "one run = one generated class family + class-list orders + 5-30 operations. Non-trivial: the family has at least one expected edge and at least one operation. Distinct: hash of (inheritance structure, field kinds and forward-reference flags, class order, operation kinds).",
+    "components": ["real: ClassDiagram, WrappedClass, WrappedField, attribute introspectors, class_diagrams.utils, SymbolGraph.to_dot for Symbol families (pydot raw output), typing.get_type_hints, rustworkx", "stub: generated dataclass modules (exec'ed source), the decoy module"],
+    "assumptions": ["the table of predicates per field kind (DESIGN.md C17) lists what must be true / false and leaves the rest open", "sampling, not enumeration"],
+}
+
 # <<NEW-PROPERTIES>>
 
 ENGINES = {
+    "Sim-D": "class-diagram history simulator: generated dataclass families with ground truth by construction; seeded class order, read-only operation histories, derived views and renderings; fork-per-run",
     "Sim-J": "JSON store simulator: writer -> stored JSON text -> at-rest tag corruption -> reader, behind a simulated import system; enumerated fault matrix plus seeded fault sequences; fork-per-run",
     "Sim-O": "ontology assertion simulator: facts are messages; the scheduler reorders, duplicates and routes them through write paths, with gc/sweep events; oracle = reference closure from a plain ontology table; fork-per-run",
     "Sim-L": "lifecycle simulator: cyclic GC disabled, reference drops / gc.collect / sweep / graph clear are scheduled ops on a harness-owned handle table, weak-reference census as ground truth; fork-per-run",
@@ -190,5 +209,5 @@ NOT_APPLICABLE = {
     "C11": "pattern matching vs explicit query: pure in (pattern, data); " + _PURE,
     "C12": "predicates/symbolic functions, concrete vs symbolic call: pure in (signature, call shape, binding); " + _PURE,
     "C18": "JSON round trip: pure in the value; " + _PURE,
-    "C17": _WIP,
+
 }
